@@ -1,2 +1,204 @@
-(* C14 property theorems (renderer part); proofs live in C02 (the model is shared). In progress. *)
-From Gv Require Import lib.Bytes lib.Json C02.Model C02.Spec.
+(* C14 property theorems: statements only; every proof is [exact lemma].
+   Renderer part (a denied field is null, reported at its path, null-propagates like any other
+   null): the C02 model carries the decision function; the two theorems are re-stated here.
+   Planner / loader part: coordinate collector, seeding, fetch gate, coordinate per mode. *)
+From Gv Require Import lib.Bytes lib.Json C02.Model C02.Spec C02.Properties
+     C14.Model C14.Spec C14.ProofsCollect C14.ProofsGate C14.ProofsMode.
+Open Scope N_scope.
+
+(* ------------------------------------------------------------------ renderer part (C02) *)
+(* R1: the two-pass renderer (pre-walk that nulls denied fields and null-propagates, then the
+   print walk) yields exactly the errors and the tree of the one-pass completion semantics, for
+   every authorization decision function, plan and data *)
+Theorem c14_resolve_refines_complete :
+  forall (deny : bytes -> bytes -> bool) (root : node) (data : json),
+    root_wf root = true ->
+    let r := resolve deny root data in
+    r_panic r = false /\ r_render_err r = false /\
+    r_errors r = snd (complete_root deny root data) /\
+    r_data r = data_bytes (fst (complete_root deny root data)) /\
+    (r_data_null r = true <-> fst (complete_root deny root data) = None).
+Proof. exact C02.Properties.resolve_refines_complete. Qed.
+Print Assumptions c14_resolve_refines_complete.
+
+(* R2: every denied field is null in the result and reported as UNAUTHORIZED at its path *)
+Theorem c14_denied_is_null :
+  forall (deny : bytes -> bytes -> bool) (root : node) (data : json) (t : json),
+    root_wf root = true ->
+    fst (complete_root deny root data) = Some t ->
+    denied_null_b deny root data [] [] (snd (complete_root deny root data)) t = true.
+Proof. exact C02.Properties.denied_is_null. Qed.
+Print Assumptions c14_denied_is_null.
+
+(* ------------------------------------------------------------------ collector *)
+(* a plan with a shareable protected field below a list, an unprotected field, a protected root
+   field of an entity fetch that is not in the response tree (a planner-added @requires input) *)
+Definition ex_tree : pnode :=
+  PObj [PFld [109] (Some {| fi_parent := [81]; fi_name := [109]; fi_rule := false; fi_sources := [[65]] |})
+             (PArr (PObj [PFld [110] (Some {| fi_parent := [85]; fi_name := [110]; fi_rule := true; fi_sources := [[66]; [65]] |}) PLeaf;
+                          PFld [116] None PLeaf]))].
+Definition ex_plan : plan :=
+  {| pl_op := OP_QUERY;
+     pl_fetches := [{| ft_ds := [65]; ft_op := OP_QUERY; ft_roots := [{| rf_type := [81]; rf_field := [109]; rf_rule := false |}] |};
+                    {| ft_ds := [67]; ft_op := OP_QUERY; ft_roots := [{| rf_type := [85]; rf_field := [120]; rf_rule := true |}] |}];
+     pl_root := ex_tree |}.
+Example c14_collect_example :
+  collect_coordinates ex_plan =
+  [{| co_ds := [65]; co_type := [85]; co_field := [110] |};
+   {| co_ds := [66]; co_type := [85]; co_field := [110] |};
+   {| co_ds := [67]; co_type := [85]; co_field := [120] |}].
+Proof. vm_compute. reflexivity. Qed.
+
+(* T1 collector_complete: every field of the response tree with an authorization rule has its
+   (ExactParentTypeName, Name) coordinate in the collected list for each of its source ids, and
+   so has every protected root field of every fetch *)
+Theorem collector_complete :
+  forall (p : plan),
+    (forall f s, In f (fields_of (pl_root p)) -> fi_rule f = true -> In s (fi_sources f) ->
+                 In {| co_ds := s; co_type := fi_parent f; co_field := fi_name f |} (collect_coordinates p)) /\
+    (forall ft r, In ft (pl_fetches p) -> In r (ft_roots ft) -> rf_rule r = true ->
+                  In {| co_ds := ft_ds ft; co_type := rf_type r; co_field := rf_field r |} (collect_coordinates p)).
+Proof. exact collector_complete_lemma. Qed.
+Print Assumptions collector_complete.
+
+(* T2 collector_sound: nothing else is put before the batch authorizer *)
+Theorem collector_sound :
+  forall (p : plan) (c : coordinate), In c (collect_coordinates p) ->
+    (exists ft r, In ft (pl_fetches p) /\ In r (ft_roots ft) /\ rf_rule r = true /\
+                  c = {| co_ds := ft_ds ft; co_type := rf_type r; co_field := rf_field r |}) \/
+    (exists f s, In f (fields_of (pl_root p)) /\ fi_rule f = true /\ In s (fi_sources f) /\
+                 c = {| co_ds := s; co_type := fi_parent f; co_field := fi_name f |}).
+Proof. exact collector_sound_lemma. Qed.
+Print Assumptions collector_sound.
+
+(* T3: the boolean checker the driver runs on the implementation's AuthorizationCoordinates
+   decides the completeness clause *)
+Theorem collector_complete_checker :
+  forall (p : plan) (coords : list coordinate),
+    collector_complete_b p coords = true <-> collector_complete_prop p coords.
+Proof. exact collector_complete_b_spec. Qed.
+Print Assumptions collector_complete_checker.
+Example c14_checker_example : collector_complete_b ex_plan (collect_coordinates ex_plan) = true
+                              /\ collector_complete_b ex_plan (tl (collect_coordinates ex_plan)) = false.
+Proof. vm_compute. split; reflexivity. Qed.
+
+(* T4: the same on the C02 plan tree (fields carry [authinfo]; [srcs] gives their source ids) *)
+Theorem collector_complete_c02 :
+  forall (srcs : authinfo -> list bytes) (root : node) (fetches : list fetchinfo) (op : N) (a : authinfo) (s : bytes),
+    In a (node_auths root) -> In s (srcs a) ->
+    In {| co_ds := s; co_type := au_parent_type a; co_field := au_field a |}
+       (collect_coordinates {| pl_op := op; pl_fetches := fetches; pl_root := of_node srcs root |}).
+Proof. exact collector_complete_c02_lemma. Qed.
+Print Assumptions collector_complete_c02.
+Example c14_c02_example :
+  node_auths C02.Properties.ex_auth_plan = [{| au_parent_type := [84]; au_field := [97] |}] /\
+  collect_coordinates {| pl_op := OP_QUERY; pl_fetches := []; pl_root := of_node (fun _ => [[65]]) C02.Properties.ex_auth_plan |}
+  = [{| co_ds := [65]; co_type := [84]; co_field := [97] |}].
+Proof. vm_compute. split; reflexivity. Qed.
+
+(* T5 unseeded_never_reached: with the decisions seeded from the collected coordinates by the
+   batch authorizer [d] (true = deny), the coordinate the pre-fetch renderer consults for ANY field
+   of the tree, whatever the data, is seeded, and the decision it gets is [d] of the field's
+   plan-time coordinate -- "unseeded = allowed" is never reached for a field of the tree *)
+Theorem unseeded_never_reached :
+  forall (p : plan) (d : bytes -> bytes -> bool) (f : finfo) (value : option json) (c : coordinate),
+    In f (fields_of (pl_root p)) -> consulted true value f = Some c ->
+    In c (collect_coordinates p) /\
+    decide_prefetch (seed d (collect_coordinates p)) c = d (fi_parent f) (fi_name f).
+Proof. exact unseeded_never_reached_lemma. Qed.
+Print Assumptions unseeded_never_reached.
+(* ... while an unseeded coordinate is allowed: the hole that completeness closes *)
+Theorem unseeded_is_allowed :
+  forall (d : bytes -> bytes -> bool) (coords : list coordinate) (c : coordinate),
+    ~ In c coords -> decide_prefetch (seed d coords) c = false.
+Proof. exact decide_prefetch_unseeded. Qed.
+Print Assumptions unseeded_is_allowed.
+Example c14_unseeded_example :
+  let deny_all := fun _ _ : bytes => true in
+  decide_prefetch (seed deny_all (collect_coordinates ex_plan)) {| co_ds := [66]; co_type := [85]; co_field := [110] |} = true /\
+  decide_prefetch (seed deny_all (tl (tl (collect_coordinates ex_plan)))) {| co_ds := [66]; co_type := [85]; co_field := [110] |} = false.
+Proof. vm_compute. split; reflexivity. Qed.
+
+(* ------------------------------------------------------------------ fetch gate *)
+(* T6: a query request is held back exactly when it has a root field and every root field is
+   protected and has a cached deny decision *)
+Theorem fetch_gate_query :
+  forall (ds : bytes) (roots : list rootfield) (k : cache),
+    is_fetch_authorized_from_cache true OP_QUERY ds roots k = false <->
+    roots <> [] /\
+    forall r, In r roots ->
+              rf_rule r = true /\ deny_reason k {| co_ds := ds; co_type := rf_type r; co_field := rf_field r |} = true.
+Proof. exact fetch_gate_query_lemma. Qed.
+Print Assumptions fetch_gate_query.
+
+(* T7: a mutation / subscription request (any operation type other than query) is held back
+   exactly when some root field is protected and has a cached deny decision *)
+Theorem fetch_gate_mutation :
+  forall (optype : N) (ds : bytes) (roots : list rootfield) (k : cache), optype <> OP_QUERY ->
+    (is_fetch_authorized_from_cache true optype ds roots k = false <->
+     exists r, In r roots /\ rf_rule r = true /\
+               deny_reason k {| co_ds := ds; co_type := rf_type r; co_field := rf_field r |} = true).
+Proof. exact fetch_gate_nonquery_lemma. Qed.
+Print Assumptions fetch_gate_mutation.
+
+(* T8: an UNSEEDED root coordinate lets the request through: a query request with a root field
+   whose coordinate was not seeded is sent whatever the decisions of the others; a mutation
+   request none of whose root coordinates was seeded is sent *)
+Theorem fetch_gate_unseeded_query :
+  forall (d : bytes -> bytes -> bool) (coords : list coordinate) (ds : bytes) (roots : list rootfield) (r : rootfield),
+    In r roots -> ~ In {| co_ds := ds; co_type := rf_type r; co_field := rf_field r |} coords ->
+    is_fetch_authorized_from_cache true OP_QUERY ds roots (seed d coords) = true.
+Proof. exact fetch_gate_unseeded_query_lemma. Qed.
+Print Assumptions fetch_gate_unseeded_query.
+Theorem fetch_gate_unseeded_mutation :
+  forall (d : bytes -> bytes -> bool) (coords : list coordinate) (optype : N) (ds : bytes) (roots : list rootfield),
+    optype <> OP_QUERY ->
+    (forall r, In r roots -> ~ In {| co_ds := ds; co_type := rf_type r; co_field := rf_field r |} coords) ->
+    is_fetch_authorized_from_cache true optype ds roots (seed d coords) = true.
+Proof. exact fetch_gate_unseeded_nonquery_lemma. Qed.
+Print Assumptions fetch_gate_unseeded_mutation.
+
+(* T9 fetch_gate: with the cache seeded from the collector by the batch authorizer [d], the
+   verdict for every fetch of the plan is the rule of the property over the authorizer's answers
+   for the fetch's root coordinates: not sent iff (query) all root fields are protected and denied
+   / (otherwise) some root field is *)
+Theorem fetch_gate :
+  forall (p : plan) (d : bytes -> bytes -> bool) (ft : fetchinfo) (optype : N), In ft (pl_fetches p) ->
+    is_fetch_authorized_from_cache true optype (ft_ds ft) (ft_roots ft) (seed d (collect_coordinates p))
+    = negb (must_not_send optype (map (fun r => (rf_rule r, d (rf_type r) (rf_field r))) (ft_roots ft))).
+Proof. exact fetch_gate_plan_lemma. Qed.
+Print Assumptions fetch_gate.
+Example c14_gate_example :
+  let deny_x := fun (_ f : bytes) => bytes_eqb f [120] in
+  let k := seed deny_x (collect_coordinates ex_plan) in
+  (* the entity fetch whose only root field is the denied U.x is not sent; as a mutation with a
+     second, allowed root field it is still not sent; as a query with that second field it is *)
+  is_fetch_authorized_from_cache true OP_QUERY [67] [{| rf_type := [85]; rf_field := [120]; rf_rule := true |}] k = false /\
+  is_fetch_authorized_from_cache true OP_MUTATION [67]
+     [{| rf_type := [85]; rf_field := [121]; rf_rule := false |}; {| rf_type := [85]; rf_field := [120]; rf_rule := true |}] k = false /\
+  is_fetch_authorized_from_cache true OP_QUERY [67]
+     [{| rf_type := [85]; rf_field := [121]; rf_rule := false |}; {| rf_type := [85]; rf_field := [120]; rf_rule := true |}] k = true /\
+  (* no root fields recorded: never held back *)
+  is_fetch_authorized_from_cache true OP_QUERY [67] [] k = true.
+Proof. vm_compute. repeat split. Qed.
+
+(* ------------------------------------------------------------------ coordinate per mode *)
+(* T10: pre-fetch mode authorizes under the plan-time type, post-fetch mode under the runtime
+   __typename of the enclosing object (plan-time type when the data has none) *)
+Theorem coordinate_mode :
+  forall (v : json) (f : finfo),
+    field_coordinate true (Some v) f = (fi_parent f, fi_name f) /\
+    field_coordinate false (Some v) f = (match typename_of v with Some t => t | None => fi_parent f end, fi_name f) /\
+    (forall t, typename_of v = Some t -> t <> fi_parent f ->
+               field_coordinate false (Some v) f <> field_coordinate true (Some v) f).
+Proof.
+  exact (fun v f => conj (coordinate_mode_prefetch (Some v) f)
+                         (conj (coordinate_mode_postfetch v f) (coordinate_mode_differ v f))).
+Qed.
+Print Assumptions coordinate_mode.
+Example c14_mode_example :
+  let f := {| fi_parent := [73]; fi_name := [102]; fi_rule := true; fi_sources := [[65]] |} in
+  let v := JObj [([95;95;116;121;112;101;110;97;109;101], JStr [84])] in
+  consulted true (Some v) f = Some {| co_ds := [65]; co_type := [73]; co_field := [102] |} /\
+  consulted false (Some v) f = Some {| co_ds := [65]; co_type := [84]; co_field := [102] |}.
+Proof. vm_compute. split; reflexivity. Qed.
